@@ -177,6 +177,7 @@ Section ObjInd.
   Hypothesis HNoneType : P ONoneType.
   Hypothesis HInst : forall i k f a sts, P f -> P a -> Forall P sts -> P (OInst i k f a sts).
   Hypothesis HMark : P OMark.
+  Hypothesis HByteArray : forall s, P (OByteArray s).
 
   Fixpoint obj_ind' (o : obj) : P o :=
     let fix all (xs : list obj) : Forall P xs :=
@@ -206,6 +207,7 @@ Section ObjInd.
     | ONoneType => HNoneType
     | OInst i k f a sts => HInst i k f a sts (obj_ind' f) (obj_ind' a) (all sts)
     | OMark => HMark
+    | OByteArray s => HByteArray s
     end.
 End ObjInd.
 
@@ -526,9 +528,9 @@ Proof.
     destruct (pop1_safe al _ _ _ E Hs) as [Hv Hr]. apply push_safe; assumption.
   - (* MARK *) apply push_safe; [exact Hst | reflexivity].
   - apply do_put_safe; exact Hst.
-  - destruct (Z.ltb i 0); [exact Hst | apply do_put_safe; exact Hst].
+  - destruct (Z.ltb i 0); [exact Hst |]. destruct (Z.ltb MEMO_MAX i); [exact Hst | apply do_put_safe; exact Hst].
   - apply do_put_safe; exact Hst.
-  - apply do_put_safe; exact Hst.
+  - destruct (Z.ltb MEMO_MAX i); [exact Hst | apply do_put_safe; exact Hst].
   - apply do_get_safe; exact Hst.
   - apply do_get_safe; exact Hst.
   - apply do_get_safe; exact Hst.
@@ -652,6 +654,12 @@ Proof.
   - apply do_ext_safe; exact Hst.
   - apply do_ext_safe; exact Hst.
   - apply do_ext_safe; exact Hst.
+  - (* STRING *) apply push_safe; [exact Hst | reflexivity].
+  - apply push_safe; [exact Hst | reflexivity].
+  - apply push_safe; [exact Hst | reflexivity].
+  - (* BYTEARRAY8 *) apply push_safe; [exact Hst | reflexivity].
+  - (* NEXT_BUFFER *) exact Hst.
+  - (* READONLY_BUFFER *) destruct (pop1 (stack st)) as [[v r]|]; [|exact Hst]. destruct v; exact Hst.
 Qed.
 
 (** ** whole runs *)
